@@ -114,7 +114,11 @@ Rhs(sym) ==
                        <<"(", C, "? i : j)">>, <<"(sh ?", I, ":", I, ")">>,
                        <<"fs(s)">>, <<"fo(o)">>, <<"gso(", I, ").in.m">>, <<"fs(gs(", I, "))">>, <<"(st +=", I, ")">>,
                        <<"(*(int *)__builtin_alloca((", I, "& 15) | 4) =", I, ")">>, <<"vf2(", I, ",", L, ", \"s\",", D, ")">>,
-                       <<"(", C, "? s : s2).m">>, <<"(al ^=", I, ")">>, <<"(pp != &a[", I, "& 3])">> >>
+                       <<"(", C, "? s : s2).m">>, <<"(al ^=", I, ")">>, <<"(pp != &a[", I, "& 3])">>,
+                       (* variadic callees whose NAMED parameters are double / long / float / _Bool: the int arguments *)
+                       (* must be converted to the parameter type, not merely promoted                                  *)
+                       <<"vg(", I, ",", I, ",", L, ")">>, <<"vh(", I, ",", I, ",", I, ",", D, ")">>, <<"vg(c, sh,", L, ")">>,
+                       <<"vh(u, p, c, fl)">> >>
                  \o (IF NoretArm THEN << <<"(", C, "? (die(),", I, ") :", I, ")">>, <<"(", C, "?", I, ": (die(),", I, "))">> >> ELSE <<>>))
        [] sym.nt = "L" ->
             Each(LongLeaf, LAMBDA x : <<x>>)
